@@ -52,6 +52,12 @@ fn alphabet(b: &Built) -> Vec<Op> {
         a.push(Op::Inc { pos, liq: 1, v2: pos % 2 == 0 });
         a.push(Op::Dec { pos, part: crate::ops::Part::Half, v2: pos % 2 == 1 });
     }
+    if b.w.pool.tick_spacing == 64 {
+        // reposition_liquidity_v2: re-range position 0 (new bounds share tick array 0 with the other positions' bounds) and back
+        a.push(Op::Repos { pos: 0, lower: -64, upper: 192, liq: stdworlds::BIG / 2 });
+        a.push(Op::Repos { pos: 0, lower: -128, upper: 128, liq: stdworlds::BIG });
+        a.push(Op::Repos { pos: 1, lower: 128, upper: 5696 + 64, liq: 77 });
+    }
     a
 }
 
